@@ -503,6 +503,10 @@ int32 dtlsEncryptFragRecord(ssl_t *ssl, flightEncode_t *msg,
     unsigned char *updateHash, *encryptStart;
     unsigned char fakeHeader[SSL3_HANDSHAKE_HEADER_LEN + DTLS_HEADER_ADD_LEN];
 
+    if (sslWriteSeqExhausted(ssl))
+    {
+        return PS_LIMIT_FAIL;
+    }
     encryptStart = out->end + ssl->recordHeadLen;
 
     updateHash = msg->start;
